@@ -9,6 +9,9 @@ typedef struct S_class_2estd_3a_3a__cxx11_3a_3abasic_string vstr;
 #define VS_SSO(s) ((uint8_t*)&(s)->f2)
 #define VS_CAP(s) ((s)->f2.f0)
 #define VS_LOCAL(s) (VS_P(s) == VS_SSO(s))
+/* a fresh SSO buffer is zero-filled (its bytes beyond the string are unspecified in the real library): with a constant
+   start value CBMC's constant propagation sees short constant strings as constants instead of updates of garbage */
+#define VS_ZERO_SSO(s) do { (s)->f2.f0 = 0; ((uint64_t*)VS_SSO(s))[1] = 0; } while (0)
 /* byte copy with a symbolic length: a bounded loop of guarded byte stores (a symbolic-size memcpy makes CBMC's
    byte-operator flattening explode); lengths above VF_MAXCOPY are outside every harness's bounds and asserted */
 #ifndef VF_MAXCOPY
@@ -24,11 +27,11 @@ static void vf_copy(uint8_t *d, const uint8_t *s, uint64_t n)
 static uint8_t *vs_alloc(uint64_t n) { __CPROVER_assert(n <= VF_MAXCOPY + 1, "string model: length within VF_MAXCOPY"); uint8_t *p = malloc(VF_MAXCOPY + 1); __CPROVER_assume(p != 0); return p; }
 static void vs_init_len(vstr *s, const uint8_t *src, uint64_t n)
 {
-  if (n > 15) { VS_P(s) = vs_alloc(n + 1); VS_CAP(s) = n; } else VS_P(s) = VS_SSO(s);
+  if (n > 15) { VS_P(s) = vs_alloc(n + 1); VS_CAP(s) = n; } else { VS_ZERO_SSO(s); VS_P(s) = VS_SSO(s); }
   if (n) vf_copy(VS_P(s), src, n);
   VS_P(s)[n] = 0; VS_N(s) = n;
 }
-void x__ZNSt7__cxx1112basic_stringIcSt11char_traitsIcESaIcEEC2Ev(vstr *s) { VS_P(s) = VS_SSO(s); VS_N(s) = 0; VS_SSO(s)[0] = 0; }
+void x__ZNSt7__cxx1112basic_stringIcSt11char_traitsIcESaIcEEC2Ev(vstr *s) { VS_ZERO_SSO(s); VS_P(s) = VS_SSO(s); VS_N(s) = 0; VS_SSO(s)[0] = 0; }
 void x__ZNSt7__cxx1112basic_stringIcSt11char_traitsIcESaIcEEC2EPKcmRKS3_(vstr *s, uint8_t *src, uint64_t n, struct S_class_2estd_3a_3aallocator *a) { vs_init_len(s, src, n); }
 void x__ZNSt7__cxx1112basic_stringIcSt11char_traitsIcESaIcEEC2ERKS4_(vstr *s, vstr *o) { vs_init_len(s, VS_P(o), VS_N(o)); }
 void x__ZNSt7__cxx1112basic_stringIcSt11char_traitsIcESaIcEEC2EOS4_(vstr *s, vstr *o)
